@@ -76,13 +76,6 @@ theorem spellings_agree_partial :
     ∀ cls ∈ classes, (report Gen.dispatchTable cls).partialOk = true := by
   decide +kernel
 
-/-- the witness of F-nep18-signature: `np.var(x, ddof=1)` -/
-def witnessDdof : Probe := { pub := nm_numpy_var, mpath := [], name := nm_var, param := nm_ddof, way := Way.kw nm_ddof }
-
-/-- is the witness a violation on table `t` (evaluated by the model driver on every run; today: true) -/
-def witnessActive (t : List Entry) : Bool :=
-  (probes t nm_COO).any fun e => e.1 == witnessDdof && !e.2.ok
-
 /-- **spellings_agree_counterexample.** For ANY table: if the probe `np.var(x, ddof=…)` is among the probes and the
 function reached by name does not take it (today: `sparse.var(x, /, *, axis, correction, keepdims)` is reached while the
 method takes `ddof`), the full statement is false.  The check evaluates `witnessActive Gen.dispatchTable` with the
